@@ -363,7 +363,8 @@ def r_tables(c):
 
 
 PRODUCERS = {"logical_not": "LogicalNot", "logical_or": "LogicalOr",
-             "logical_and": "LogicalAnd", "where": "If", "_compare": "Comparison"}
+             "logical_and": "LogicalAnd", "where": "If", "_compare": "Comparison",
+             "full": "NaN"}
 
 
 def r_producer(c):
@@ -395,11 +396,94 @@ def r_producer(c):
                 f"the raiser has no branch for {prim}")
 
 
+def r_patterns(c):
+    """structural guards of the pattern matches"""
+    m = c.model
+    fd = m.func(RAISER)
+    where = m.loc(m.module_of(fd), fd)
+    # (1) every constant subscript X.children[k] used in a branch is dominated by a
+    #     len(X.children) == n test (n > k) in the test of the same arm
+    n = 0
+    for test, body in _branches(fd):
+        tsrc = ast.unparse(test)
+        nodes = [test] + list(body)
+        for nd in nodes:
+            for sub in ast.walk(nd):
+                if isinstance(sub, ast.Subscript) and isinstance(sub.value, ast.Attribute) \
+                        and sub.value.attr == "children" and isinstance(sub.slice, ast.Constant):
+                    base = ast.unparse(sub.value)
+                    k = sub.slice.value
+                    n += 1
+                    import re
+                    mm = re.search(r"len\(" + re.escape(base) + r"\) == (\d+)", tsrc)
+                    c.check(mm is not None and int(mm.group(1)) > k, "R19-PATTERN",
+                            "index_lambda_to_high_level_op", f"{base}[{k}]:length-guarded",
+                            m.loc(m.module_of(fd), sub),
+                            f"`{base}[{k}]` is used although the branch does not test "
+                            f"len({base}) == n: a node with more operands is matched and "
+                            "its extra operands silently dropped (approximated instead of "
+                            "reported unknown)")
+    if n < 6:
+        raise AnalysisError(f"only {n} constant child subscripts found in the raiser")
+    # (2) the recognisers that must see casts get the original lambda
+    for helper in ("_is_idx_lambda_broadcast_op", "_is_normal_reduce_expr"):
+        calls = [x for x in ast.walk(fd) if isinstance(x, ast.Call)
+                 and ast.unparse(x.func) == helper]
+        c.check(calls and all(len(x.args) == 1 and ast.unparse(x.args[0]) == fd.args.args[0].arg
+                              for x in calls), "R19-PATTERN", "index_lambda_to_high_level_op",
+                f"{helper}:sees-the-original-lambda", where,
+                f"{helper} is not applied to the index lambda itself")
+        h = m.func(R + "." + helper)
+        hs = ast.unparse(h)
+        hp = h.args.args[0].arg
+        c.check("TypeCastDropper" not in hs and "inner_expr" not in [a.arg for a in h.args.args]
+                and f"{hp}.expr" in hs, "R19-PATTERN", helper, "matches-the-uncast-expression",
+                m.loc(m.module_of(h), h),
+                f"{helper} strips type casts before matching: a cast (astype) would be "
+                "classified as the operation underneath it and the cast lost")
+    # (2b) sibling agreement: like _as_array_or_scalar, the broadcast recogniser
+    #      accepts an operand only through its exact broadcast subscript
+    b = m.func(R + "._is_idx_lambda_broadcast_op")
+    okb = any(isinstance(x, ast.Compare) and "index_tuple" in ast.unparse(x)
+              and "get_indexing_expression(from_shape, to_shape)" in ast.unparse(x)
+              for x in ast.walk(b))
+    c.check(okb, "R19-PATTERN", "_is_idx_lambda_broadcast_op",
+            "subscript-is-the-exact-broadcast-subscript", m.loc(m.module_of(b), b),
+            "the broadcast recogniser looks at shapes only: a permuted or offset "
+            "subscript (a[_1, _0]) is classified as a broadcast of a")
+    c.check("to_shape[-len(from_shape):]" not in ast.unparse(b), "R19-PATTERN",
+            "_is_idx_lambda_broadcast_op", "zero-dimensional-operand-handled",
+            m.loc(m.module_of(b), b),
+            "to_shape[-len(from_shape):] is the whole shape for a 0-d operand: the strict "
+            "zip raises ValueError for broadcast_to(scalar_array, shape)")
+    # (3) operands are recognised only in a lambda whose shape is the broadcast shape
+    a = m.func(CASCADE)
+    ok = False
+    for iff in ast.walk(a):
+        if isinstance(iff, ast.If) and any(isinstance(s_, ast.Raise) for s_ in iff.body):
+            t = ast.unparse(iff.test)
+            if "are_shapes_equal(out_shape, get_shape_after_broadcasting(bindings.values()))" in t \
+                    and t.startswith("not "):
+                ok = True
+    c.check(ok, "R19-PATTERN", "_as_array_or_scalar", "shape-equals-broadcast-shape-incl-rank",
+            m.loc(m.module_of(a), a),
+            "the guard no longer requires the lambda's shape to equal (rank included) the "
+            "broadcast shape of its operands")
+    # (4) an operand is an exact broadcast subscript, a scalar binding, a constant or NaN
+    asrc = ast.unparse(a)
+    c.check("binding_to_subscript[expr.aggregate.name] == expr" in asrc
+            and "get_indexing_expression(bnd.shape, out_shape)" in asrc, "R19-PATTERN",
+            "_as_array_or_scalar", "operand-only-through-exact-broadcast-subscript",
+            m.loc(m.module_of(a), a),
+            "an array operand is recognised by something other than equality with its "
+            "exact broadcast subscript")
+
+
 SPEC = Spec(
     prop="C19",
-    rules=[r_arity, r_order, r_cascade, r_tables, r_producer],
+    rules=[r_arity, r_order, r_cascade, r_tables, r_producer, r_patterns],
     floors={"R19-ARITY": 9, "R19-ORDER": 5, "R19-CASCADE": 6, "R19-TABLES": 60,
-            "R19-PRODUCER": 10},
+            "R19-PRODUCER": 10, "R19-PATTERN": 12},
     explanation=(
         "R19-ARITY: every construction of a HighLevelOp dataclass binds exactly its "
         "fields; a starred operand tuple must have its length pinned down on every "
@@ -415,7 +499,11 @@ SPEC = Spec(
         "members and every member is producible; every c99 function pytato.cmath "
         "emits is listed with the right arity; prefix slice = prefix length. "
         "R19-PRODUCER: logical_not/or/and, where and comparisons build the scalar "
-        "node types the raiser tests."),
+        "node types the raiser tests. R19-PATTERN: constant child subscripts are "
+        "dominated by a length test in the same arm; the broadcast/reduce "
+        "recognisers see the un-cast expression; operands are recognised only "
+        "through their exact broadcast subscript in a lambda whose shape equals the "
+        "operands' broadcast shape."),
     not_decided=(
         "That applying the recognised operation with NumPy reproduces the pointwise "
         "value; near-miss rejection for arbitrary hand-built expressions (subscript "
